@@ -192,6 +192,16 @@ class Rot:
         roll = math.atan2(2 * (w * x - y * z), 1 - 2 * (x * x + y * y))
         return yaw, pitch, roll
 
+    def _component(self, i):
+        if self.q is None:
+            raise NotImplementedError("quaternion components of an angle-mode rotation (cos/sin of half a symbolic angle)")
+        return self._unit_floats()[i]
+
+    w = property(lambda self: self._component(0))
+    x = property(lambda self: self._component(1))
+    y = property(lambda self: self._component(2))
+    z = property(lambda self: self._component(3))
+
     @property
     def angle(self):
         if self.q is None:
